@@ -66,12 +66,14 @@ theorem injFile_cursor (w : Tape.World) (src : Str) (st st' : Inj) (p : Bool) (h
     · cases h; exact ⟨Nat.le_refl _, rfl, fun _ _ => rfl⟩
     · split at h
       · cases h; exact ⟨Nat.le_refl _, rfl, fun _ _ => rfl⟩
-      · cases hf : injWriteFile (splitSource src).1 _ _ _ data 4 st with
-        | error e => rw [hf] at h; cases h
-        | ok st1 =>
-          rw [hf] at h
-          cases h
-          exact injWriteFile_cursor _ _ _ _ _ 4 st st' hf
+      · split at h
+        · cases h; exact ⟨Nat.le_refl _, rfl, fun _ _ => rfl⟩
+        · cases hf : injWriteFile (splitSource src).1 _ _ _ data 4 st with
+          | error e => rw [hf] at h; cases h
+          | ok st1 =>
+            rw [hf] at h
+            cases h
+            exact injWriteFile_cursor _ _ _ _ _ 4 st st' hf
 
 /-- **C10 (cursor monotone over a whole batch)** -/
 theorem injLoop_cursor (w : Tape.World) (srcs : List Str) : ∀ (st st' : Inj), injLoop w srcs st = .ok st' →
